@@ -1,7 +1,7 @@
 (* Entry point of the "trav" case kind (C15): val -> val glue around Traversal.v, and the
    layer-B predicate evaluated on what the implementation produced.
    input  = (api cfg store traces fixed), cfg = (roots sel opts ties),
-            opts = (dpad ipad codec dups budget chooser nilroots)     -- see harness/k_trav.go *)
+            opts = (dpad ipad codec dups budget chooser nilroots plain) -- see harness/k_trav.go *)
 From Coq Require Import Strings.String.
 From GoCar Require Import Bytes Varint Cid Header Frame V2Header Scan Index Val Traversal.
 
